@@ -198,13 +198,16 @@ Proof.
     replace (Z.to_nat (s - sym0)) with (S (Z.to_nat (s - (sym0 + 1)))) by lia. exact B.
 Qed.
 
-Theorem general_table al probs ms :
+Theorem general_table_full al probs ms :
   5 <= al <= 9 -> Forall (fun p => -1 <= p) probs -> weight probs = 2 ^ al ->
   (length probs <= 256)%nat -> Z.of_nat (length probs) <= ms + 1 ->
   exists D, fse_build_from_probabilities (fse_new ms) al probs = ROk D /\
     (forall e, In e (t_decode D) -> 0 <= e_bits e <= al /\ 0 <= e_base e /\ e_base e + 2 ^ e_bits e <= 2 ^ al) /\
     Z.of_nat (length (t_decode D)) = 2 ^ al /\
-    (forall i, (i < length probs)%nat -> nth i probs 0 <> 0 -> covers D (Z.of_nat i)).
+    (forall i, (i < length probs)%nat -> nth i probs 0 <> 0 -> covers D (Z.of_nat i)) /\
+    (* where every entry comes from: a "less than one" slot, or the k-th state of a symbol of probability p *)
+    (forall e, In e (t_decode D) -> e_bits e = al \/
+       exists p k, In p probs /\ 1 <= p /\ 0 <= k < p /\ e_bits e = snd (calc_baseline_and_numbits (2 ^ al) p k)).
 Proof.
   intros Hal Hp Hw Hlen Hms.
   set (size := 2 ^ al). assert (Hsz : 0 < size) by (apply Z.pow_pos_nonneg; lia).
@@ -301,7 +304,7 @@ Proof.
   assert (Hhigh : forall e, In e (skipn (Z.to_nat neg) dec2) -> exists i, neg <= i < size /\ e = nth_e dec1 i).
   { intros e He. destruct (in_skipn_nth dec2 entry0 _ e He) as (k & Hk & <-). exists (Z.of_nat k). split; [lia|].
     rewrite <- Hkeep2 by lia. unfold nth_e. rewrite Nat2Z.id. reflexivity. }
-  split; [|split].
+  split; [|split; [|split]].
   - intros e He. cbn [t_decode D] in He. apply in_app_or in He as [He|He].
     + apply (In_nth _ _ entry0) in He as (k & Hk & <-). unfold out in Hk. rewrite assign_pure_length, LG in Hk. apply (Hrange k Hk).
     + destruct (Hhigh e He) as (i & Hi & ->). destruct (Hin1 i Hi) as (B0 & B1). rewrite B0, B1. fold size. lia.
@@ -349,4 +352,27 @@ Proof.
         eapply find_entry_some; [apply in_or_app; left; exact Hine|].
         unfold mk_entry. rewrite <- Ek. cbn [e_sym e_base e_bits]. rewrite Z.eqb_refl. cbn [andb].
         apply andb_true_intro. split; lia.
+  - intros e He. cbn [t_decode D] in He. apply in_app_or in He as [He|He].
+    + right. apply (In_nth _ _ entry0) in He as (k & Hk & <-). unfold out in Hk. rewrite assign_pure_length, LG in Hk.
+      rewrite Hentry by exact Hk.
+      assert (Hin : In (nth k G 0) G) by (apply nth_In; lia).
+      destruct (Gin _ Hin) as ((X0 & X1) & X2).
+      pose proof (occ_prefix_lt G k ltac:(lia)) as Hlt. pose proof (Gcount _ Hin) as Hc.
+      exists (nth_z probs (nth k G 0)), (Z.of_nat (count_occ Z.eq_dec (firstn k G) (nth k G 0))).
+      split; [unfold nth_z; apply nth_In; lia|]. split; [exact X2|]. split; [lia|].
+      unfold mk_entry. fold size. destruct (calc_baseline_and_numbits size _ _). reflexivity.
+    + left. destruct (Hhigh e He) as (i & Hi & ->). destruct (Hin1 i Hi) as (B0 & B1). exact B1.
+Qed.
+
+(** the form used by most clients *)
+Theorem general_table al probs ms :
+  5 <= al <= 9 -> Forall (fun p => -1 <= p) probs -> weight probs = 2 ^ al ->
+  (length probs <= 256)%nat -> Z.of_nat (length probs) <= ms + 1 ->
+  exists D, fse_build_from_probabilities (fse_new ms) al probs = ROk D /\
+    (forall e, In e (t_decode D) -> 0 <= e_bits e <= al /\ 0 <= e_base e /\ e_base e + 2 ^ e_bits e <= 2 ^ al) /\
+    Z.of_nat (length (t_decode D)) = 2 ^ al /\
+    (forall i, (i < length probs)%nat -> nth i probs 0 <> 0 -> covers D (Z.of_nat i)).
+Proof.
+  intros Hal Hp Hw Hlen Hms. destruct (general_table_full al probs ms Hal Hp Hw Hlen Hms) as (D & A & B & C & E & _).
+  exists D. split; [exact A|]. split; [exact B|]. split; [exact C|exact E].
 Qed.
